@@ -302,15 +302,18 @@ void execute_queue(const Plan &plan, Verdict &v, Mode mode) {
             if (!strcmp(where, "handler-end")) {
                 UnitRec *u = ww.unit();
                 if (!u) return;
+                // the unit separator may be written together with the first bytes of a unit (either framing implementation)
+                std::string uout = u->out;
+                if (!uout.empty() && uout[0] == ';') uout.erase(0, 1);
                 if (u->tag == tag_next) {
                     int before = (int) run.q.size();
                     Entry m = run.model_pop();
-                    run.check_response(u->out, m, before);
+                    run.check_response(uout, m, before);
                     COUNT("error_queries");
                 } else if (u->tag == tag_count) {
-                    if (u->out != std::to_string(run.q.size()))
-                        v.fail("count", fmt("via=query have=%s want=%zu", u->out.c_str(), run.q.size()),
-                               fmt("SYST:ERR:COUN? wrote %s, reference FIFO holds %zu", c_escape(u->out).c_str(), run.q.size()));
+                    if (uout != std::to_string(run.q.size()))
+                        v.fail("count", fmt("via=query have=%s want=%zu", uout.c_str(), run.q.size()),
+                               fmt("SYST:ERR:COUN? wrote %s, reference FIFO holds %zu", c_escape(uout).c_str(), run.q.size()));
                 } else if (u->tag == tag_cls) {
                     if (!run.q.empty() && run.live_expected() > 0) COUNT("probe_clear_with_texts_pending");
                     run.q.clear();
